@@ -194,6 +194,11 @@ func RunC05(c *Ctx, r *Report) {
 	w.lengthSlotRule(r, prefix+"length-slots")
 	w.nestedDispatchRule(r, prefix+"nested-dispatch")
 	w.strideRule(r, prefix+"record-stride")
+	// a reference-built record of the shortest length the domain allows is not refused for its length
+	w.lengthGuardRule(r, prefix+"decode.length-guards")
+	// the header's next-payload octet is what the encoder computes from the payload list (0 for an empty list),
+	// never a value an earlier Decode or Encode left in the header object
+	c.bookkeepingRecomputedRule(r, prefix, c.EncodeScope(r, prefix), map[string]bool{"field:message.IKEHeader.NextPayload": true, "field:message.IKEHeader.PayloadBytes": true})
 	// a reference-built payload of type code K decodes to the payload type whose Type() is K
 	c.bijectionRule(r, prefix+"dispatch.ike", c.Method("message", "IKEPayloadContainer", "Decode"), "message", "IKEPayload", "Type", 16)
 	c.bijectionRule(r, prefix+"dispatch.eap", c.Method("eap", "EAP", "Unmarshal"), "eap", "EapTypeData", "Type", 5)
